@@ -6,6 +6,7 @@ C15 (A) — object-lifetime logic of `Avoid::Router`: property theorems over the
 import AdaptaVerif.Lemmas.LifecycleFault
 import AdaptaVerif.Lemmas.LifecycleCheckpoints
 import AdaptaVerif.Lemmas.LifecycleClusterRefs
+import AdaptaVerif.Lemmas.LifecycleOld
 namespace AdaptaVerif.Props.C15
 open AdaptaVerif.Model.Lifecycle AdaptaVerif.Spec.Lifecycle AdaptaVerif.Lemmas.Lifecycle
 
@@ -317,6 +318,28 @@ theorem pre_fix_router_leaks_clusters :
   · intro h; have := h.2 1 (by decide); revert this; decide
   · intro h; have := h.2; revert this; decide
   · intro h; have := h ⟨1, false, []⟩ (by decide); revert this; decide
+
+/-- **Universal form**: the pre-def6b3d machine never releases a cluster, in ANY history (legal or not, whatever
+    else happens, including `deleteCluster` of that very cluster): once `new ClusterRef` has run on a live router
+    its id stays allocated, so every history that ends with a dead router has leaked every cluster it created.
+    (For the current machine `no_leak` proves the opposite for all strictly legal histories.) -/
+theorem pre_fix_router_leaks_every_cluster (h1 h2 : List Op) (k : Id) (refs : List Id)
+    (hal : (runOld h1).alive = true)
+    (hdead : (runOld (h1 ++ Op.newCluster k refs :: h2)).alive = false) :
+    k ∈ (runOld (h1 ++ Op.newCluster k refs :: h2)).leaked := by
+  have hk : k ∈ kids (runOld (h1 ++ Op.newCluster k refs :: h2)) := by
+    unfold runOld
+    rw [List.foldl_append, List.foldl_cons]
+    apply kids_runOld_mono
+    exact kids_stepOld_newCluster _ hal k refs
+  unfold St.leaked
+  rw [if_neg (by simp [hdead])]
+  rw [allocated_eq]
+  exact List.mem_append_right _ hk
+
+/-- non-vacuity: the hypotheses are satisfiable, with the cluster deleted by `Router::deleteCluster` before `~Router` -/
+example : (runOld [.newShape 1]).alive = true ∧
+    (runOld ([.newShape 1] ++ Op.newCluster 2 [] :: [.deleteCluster 2, .deleteRouter])).alive = false := by decide
 
 /-! ### P8 — API calls without lifetime effect, and `ConnRef::setRoutingType`.  `apiRouter` / `apiConn` /
 `apiObst` are the identity of the model on a legal call (`setClusterPoly` only replaces the cluster's references); all theorems above quantify
